@@ -157,6 +157,9 @@ func NewCase(r *rand.Rand, ks gen.KeySet, flags, enc string) *Case {
 	if (enc == "s16" || enc == "raw") && n >= 3 && r.Intn(4) == 0 {
 		cs.balanceWidths(r)
 	}
+	if (enc == "s16" || enc == "raw") && n >= 1 && r.Intn(8) == 0 {
+		cs.bigValues(r)
+	}
 	cs.oracle()
 	return cs
 }
@@ -206,6 +209,40 @@ func (cs *Case) balanceWidths(r *rand.Rand) {
 		cs.Vals[i] = mk(runOf[i], w)
 	}
 	cs.Class += "+balanced-widths"
+}
+
+// bigValues replaces the values of one or two runs by long ones: widths at and beyond the 8-bit
+// and 16-bit boundaries (a width or an offset kept in a narrow integer is wrong exactly here).
+func (cs *Case) bigValues(r *rand.Rand) {
+	for rep := 0; rep < 1+r.Intn(2); rep++ {
+		// (the model reads a leaf in time linear in the value section: long values go with small sets)
+		w := []int{255, 256, 257, 1000}[r.Intn(4)]
+		if len(cs.Vals) <= 8 {
+			w = []int{255, 256, 257, 1000, 32767, 32768, 65535, 65536, 70000}[r.Intn(9)]
+		} else if len(cs.Vals) > 150 {
+			return
+		}
+		if cs.Enc == "s16" && w > 65535 {
+			w = 65535
+		}
+		i := r.Intn(len(cs.Vals))
+		old := cs.Vals[i]
+		nv := make([]byte, w)
+		for j := range nv {
+			nv[j] = byte(j*7 + rep + 1)
+		}
+		if cs.Enc == "s16" {
+			nv = append([]byte{byte(w >> 8), byte(w)}, nv...)
+		}
+		// the whole run of equal values changes together
+		for j := i; j < len(cs.Vals) && bytes.Equal(cs.Vals[j], old); j++ {
+			cs.Vals[j] = nv
+		}
+		for j := i - 1; j >= 0 && bytes.Equal(cs.Vals[j], old); j-- {
+			cs.Vals[j] = nv
+		}
+	}
+	cs.Class += "+big-values"
 }
 
 func (cs *Case) oracle() {
